@@ -5,7 +5,7 @@ set_option linter.unusedSimpArgs false
 set_option linter.unusedVariables false
 set_option linter.unusedSectionVars false
 namespace LyModel.Yin
-open LyModel LyModel.Utf8 LyModel.Generated LyModel.XmlText
+open LyModel LyModel.Utf8 LyModel.Generated LyModel.XmlText LyModel.XmlLex
 
 theorem endOf_head (fmt : Bool) (level : Nat) (name : Bytes) (kids : List YStmt) (Y : Bytes) :
     ∃ c r, endOf fmt level name kids ++ Y = c :: r ∧ (c = 62 ∨ c = 47) := by
@@ -118,7 +118,7 @@ theorem body_of_atEnd (ns : List XNs) (fmt : Bool) (level : Nat) (kids : List YS
 end LyModel.Yin
 
 namespace LyModel.Yin
-open LyModel LyModel.Utf8 LyModel.Generated LyModel.XmlText
+open LyModel LyModel.Utf8 LyModel.Generated LyModel.XmlText LyModel.XmlLex
 
 theorem generic_finish_kw (f : Nat) (parent : YKw) (cx c1 c2 c' : XCtx) (k : Bytes) (arg : Option Bytes) (kidsN : List YStmt)
     (hmk : matchKeyword cx.ns cx.name cx.pfx parent = .kw k) (hh : parseExtArg (some k) cx = .ok (c1, arg))
